@@ -258,6 +258,9 @@ func (in *Interp) rtCall(fn *ssa.Function, a []Value) Value {
 		return nil
 	case "SchedPolicy":
 		p.sched.reverse = num(0) == 1
+		if p.sched.reverse {
+			p.sched.taken = append(p.sched.taken, "scheduling policy: when a goroutine blocks the runnable one with the next LOWER id runs")
+		}
 		return nil
 	case "SelectChoice":
 		p.selectChoice = in.p.simp(a[0].(BoolV).b).k == BTrue
